@@ -8,7 +8,7 @@ EXTENDS Naturals, Sequences, Json, TLC
 CONSTANTS MinLen, MaxLen, MaxEdits
 VARIABLES p, q, r, np, e1, e2, m1, m2, phase, pos
 lvars == <<p, q, r, np, e1, e2, m1, m2, phase, pos>>
-Chars == 1..8
+Chars == 1..12
 
 LongInit ==
   /\ np \in MinLen..MaxLen /\ e1 \in 0..MaxEdits /\ e2 \in 0..MaxEdits /\ m1 \in {0, 1} /\ m2 \in {0, 1}
@@ -17,6 +17,8 @@ LongInit ==
 Ins(s, i, ch) == SubSeq(s, 1, i - 1) \o <<ch>> \o SubSeq(s, i, Len(s))
 Variants(s) ==
   {[s EXCEPT ![i] = 7 - s[i]] : i \in {j \in 1..Len(s) : s[j] \in {3, 4}}}           \* a <-> A
+  \cup {[s EXCEPT ![i] = 16 - s[i]] : i \in {j \in 1..Len(s) : s[j] \in {7, 9}}}     \* e-acute <-> E-acute
+  \cup {SubSeq(s, 1, i - 1) \o <<11, 12>> \o SubSeq(s, i + 1, Len(s)) : i \in {j \in 1..Len(s) : s[j] = 10}}   \* U+0130 -> its lower()
   \cup {[s EXCEPT ![i] = 3 - s[i]] : i \in {j \in 1..Len(s) : s[j] \in {1, 2}}}      \* / <-> \
   \cup {Ins(s, i, s[i]) : i \in {j \in 1..Len(s) : s[j] \in {1, 2}}}                 \* doubled separator
   \cup {Append(s, 1), Append(s, 2)}                                                  \* trailing separator
